@@ -8,7 +8,7 @@ fee) shows up as a 'Skip' event in the trace, never as an alarm."""
 import random
 
 TX_EDITS = ["forge_sig", "no_sig", "flip_sig", "tamper_output", "type_fee", "type_atr", "type_issuance",
-            "type_spv", "type_vip", "type_stake", "dup_input", "inflate_input", "phantom_input", "overspend", "wrap_outputs"]
+            "type_spv", "type_vip", "type_stake", "dup_input", "inflate_input", "phantom_input", "overspend", "wrap_outputs", "zero_lead_foreign"]
 BLOCK_EDITS = ["drop_last_tx", "dup_first_tx", "swap_txs", "tamper_tx_data", "zero_root_drop_tx",
                "resign_other_key", "bump_timestamp_nosign", "bump_treasury_resign", "bump_burnfee_resign"]
 
@@ -32,6 +32,9 @@ class Gen:
         self.pool = {}      # txid -> input names
         self.spent = {}
         self.nlabel = 0
+        self.chain = ["b1"]
+        self.snap = {"b1": (dict(self.outs), 1, {})}
+        self.orphaned = {}   # outputs that existed only on an abandoned branch
 
     def spendable(self, h):
         return [n for n, (o, bh) in self.outs.items() if bh + self.g >= h and n not in self.reserved()]
@@ -83,9 +86,12 @@ class Gen:
     def gt_flag(self, h):
         return h >= 3 or self.rnd.random() < 0.5
 
-    def good_block(self):
+    def good_block(self, parent=None, label=None, tag="good"):
         h = self.h + 1
-        label = "b%d" % h
+        label = label or "b%d" % h
+        if label in self.snap:
+            self.nlabel += 1
+            label = "c%d_%d" % (h, self.nlabel)
         txs = []
         for _ in range(self.rnd.choice([1, 1, 2, 3])):
             t = self.newtx(h)
@@ -93,13 +99,55 @@ class Gen:
                 txs.append(t)
         if not txs:
             return False
-        self.steps.append(dict(op="block", label=label, gt=self.gt_flag(h), txs=txs, tag="good",
-                               gap=self.rnd.choice([2, 2, 3, 5])))
+        st = dict(op="block", label=label, gt=self.gt_flag(h), txs=txs, tag=tag,
+                  gap=self.rnd.choice([2, 2, 3, 5]) if parent is None else 2)
+        if parent:
+            st["parent"] = parent
+        self.steps.append(st)
         for t in txs:
             self.apply(t, h)
         self.rebroadcast(h, label)
         self.h = h
+        self.chain.append(label)
+        self.snap[label] = (dict(self.outs), h, dict(self.spent))
         self.prune_pool()
+        return True
+
+    def reorg(self):
+        """a competing branch that forks 1..3 blocks below the tip and ends one block higher"""
+        if len(self.chain) < 3:
+            return False
+        d = self.rnd.randint(1, min(3, len(self.chain) - 2))
+        fork = self.chain[-1 - d]
+        old_outs = dict(self.outs)
+        outs, h, spent = self.snap[fork]
+        self.outs, self.h, self.spent = dict(outs), h, dict(spent)
+        for n, v in old_outs.items():
+            if n not in self.outs and n not in self.spent:
+                self.orphaned[n] = v
+        self.chain = self.chain[:len(self.chain) - d]
+        self.pool = {}   # keep the model simple: pooled transactions are not tracked across a reorg
+        parent = fork
+        for i in range(d + 1):
+            self.nlabel += 1
+            lab = "s%d" % self.nlabel
+            if not self.good_block(parent=parent, label=lab, tag="fork"):
+                return True
+            parent = lab
+        return True
+
+    def stale_spend_block(self):
+        """spend an output that only ever existed on an abandoned branch"""
+        if not self.orphaned:
+            return False
+        h = self.h + 1
+        n = self.rnd.choice(list(self.orphaned.keys()))
+        self.ntx += 1
+        self.nlabel += 1
+        t = dict(id="t%d" % self.ntx, signer=self.orphaned[n][0], ins=[n],
+                 outs=[[self.rnd.choice(self.keys), 0]], fee=0, path=[])
+        self.steps.append(dict(op="block", label="x%d" % self.nlabel, gt=self.gt_flag(h), txs=[t],
+                               tag="bad:orphaned_branch_output"))
         return True
 
     def prune_pool(self):
@@ -123,6 +171,14 @@ class Gen:
             t["ins"] = [n]
             t["signer"] = self.spent[n][0]
             self.steps.append(dict(op="block", label=label, gt=self.gt_flag(h), txs=[t], tag="bad:spent_input"))
+        elif kind < 0.75 and h > self.g + 1:
+            leaving = [n for n, (o, bh) in self.outs.items() if bh == h - self.g - 1]
+            if not leaving:
+                return False
+            n = self.rnd.choice(leaving)
+            t["ins"] = [n]
+            t["signer"] = self.outs[n][0]
+            self.steps.append(dict(op="block", label=label, gt=self.gt_flag(h), txs=[t], tag="bad:leaving_input"))
         elif kind < 0.8:
             others = [n for n in self.spendable(h) if self.outs[n][0] != t["signer"]]
             if not others:
@@ -168,14 +224,21 @@ class Gen:
         self.pool = {}
         self.rebroadcast(h, label)
         self.h = h
+        self.chain.append(label)
+        self.snap[label] = (dict(self.outs), h, dict(self.spent))
         return True
 
-    def scenario(self, nsteps, bad_p=0.2, pool_p=0.25, node_key=None):
+    def scenario(self, nsteps, bad_p=0.2, pool_p=0.25, reorg_p=0.0, node_key=None):
         for _ in range(nsteps):
             r = self.rnd.random()
             if r < bad_p:
-                self.bad_block()
-            elif r < bad_p + pool_p:
+                if self.orphaned and self.rnd.random() < 0.4:
+                    self.stale_spend_block()
+                else:
+                    self.bad_block()
+            elif r < bad_p + reorg_p:
+                self.reorg() or self.good_block()
+            elif r < bad_p + reorg_p + pool_p:
                 if self.rnd.random() < 0.3:
                     self.bundle() or self.good_block()
                 else:
@@ -194,5 +257,6 @@ def scenarios(seed, n, long_p=0.3):
         big = rnd.random() < 0.1
         gen = Gen(rnd, g, rnd.choice([2, 3]), big=big)
         nsteps = rnd.randint(2 * g + 2, 3 * g + 6) if rnd.random() < long_p else rnd.randint(4, g + 6)
-        out.append(gen.scenario(nsteps, bad_p=rnd.choice([0.0, 0.15, 0.3]), pool_p=rnd.choice([0.0, 0.25, 0.4])))
+        out.append(gen.scenario(nsteps, bad_p=rnd.choice([0.0, 0.15, 0.3]), pool_p=rnd.choice([0.0, 0.25, 0.4]),
+                                reorg_p=rnd.choice([0.0, 0.0, 0.12, 0.2])))
     return out
